@@ -1646,28 +1646,37 @@ def _first_largest(mask):
 
 
 def _structured_object(rng, shape):
-    """Union of random boxes (thickness 1..5 per axis: cubes, plates, rods), some pairs joined by one-voxel-thick
-    axis-aligned paths: objects on which opening and component selection interact in every way."""
+    """Random boxes (cubes, 1-2 voxel thick plates, rods) in separate slabs along axis 0, so that they are distinct
+    components unless joined - with probability 1/2 each - by a one-voxel-thick path: objects on which opening and
+    component selection interact in every way (split components, thin largest component, ties, nothing left)."""
     obj = np.zeros(shape, bool)
+    nreg = int(rng.integers(2, 4))
+    edges = np.linspace(0, shape[0], nreg + 1).astype(int)
     centres = []
-    for _ in range(int(rng.integers(2, 5))):
-        size = [int(rng.integers(2, 8)) for _ in shape]
-        if rng.random() < 0.45:
-            size = [int(rng.integers(4, 10)) for _ in shape]
-            size[int(rng.integers(0, len(shape)))] = int(rng.integers(1, 3))   # a plate (1-2 voxels thick)
-        size = [min(sz, n) for sz, n in zip(size, shape)]
-        lo = [int(rng.integers(0, n - sz + 1)) for sz, n in zip(size, shape)]
+    for r in range(nreg):
+        lo0, hi0 = int(edges[r]), int(edges[r + 1]) - 1            # leave one empty plane between slabs
+        kind = int(rng.integers(0, 4))
+        size = [max(1, hi0 - lo0)] + [int(rng.integers(3, n + 1)) for n in shape[1:]]
+        size[0] = int(rng.integers(1, size[0] + 1))
+        if kind == 1:                                               # plate: wide, 1-2 voxels thick
+            size = [max(1, hi0 - lo0)] + [int(rng.integers(max(3, n - 2), n + 1)) for n in shape[1:]]
+            size[int(rng.integers(0, len(shape)))] = int(rng.integers(1, 3))
+        elif kind == 2:                                             # rod
+            ax = int(rng.integers(0, len(shape)))
+            size = [sz if k == ax else int(rng.integers(1, 3)) for k, sz in enumerate(size)]
+        size = [max(1, min(sz, n)) for sz, n in zip(size, [hi0 - lo0] + list(shape[1:]))]
+        lo = [lo0 + int(rng.integers(0, (hi0 - lo0) - size[0] + 1))] + [int(rng.integers(0, n - sz + 1)) for sz, n in zip(size[1:], shape[1:])]
         obj[tuple(slice(a, a + sz) for a, sz in zip(lo, size))] = True
         centres.append([a + sz // 2 for a, sz in zip(lo, size)])
-    for _ in range(int(rng.integers(0, 3))):
-        i, j = rng.choice(len(centres), size=2, replace=False)
-        p = list(centres[i])
-        for ax in rng.permutation(len(shape)):
-            step = 1 if centres[j][ax] >= p[ax] else -1
-            while p[ax] != centres[j][ax]:
-                obj[tuple(p)] = True
-                p[ax] += step
-        obj[tuple(p)] = True
+    for r in range(nreg - 1):
+        if rng.random() < 0.65:
+            p = list(centres[r])
+            for ax in rng.permutation(len(shape)):
+                step = 1 if centres[r + 1][ax] >= p[ax] else -1
+                while p[ax] != centres[r + 1][ax]:
+                    obj[tuple(p)] = True
+                    p[ax] += step
+            obj[tuple(p)] = True
     return obj
 
 
@@ -1688,7 +1697,8 @@ def mask_pipeline(ck):
         vol = rng.integers(0, 64, size=shape) / 64.0 + 100.0 * obj
         a, b = [(1.0, 0.0), (3.5, 40.0), (0.25, -8.0)][ci % 3]
         vol = a * vol + b
-        thresholded = np.asarray(nm.compute_mask(vol, None, cc=False, opening=0))
+        m, M = (0.2, 0.9) if ci % 2 else (0.03125, 0.96875)       # defaults / a wide window (objects of 3%..97% of the volume)
+        thresholded = np.asarray(nm.compute_mask(vol, None, m, M, cc=False, opening=0))
         big = _first_largest(thresholded)
         lab, nb = ndimage.label(thresholded)
         for k in ((1, 2) if ci % 3 else (1, 3)) + ((0,) if ci % 7 == 0 else ()):
@@ -1699,11 +1709,12 @@ def mask_pipeline(ck):
             ck.count(("mask-pipeline", ci, k), nontrivial=True, bucket="mask-pipeline:%s,opening=%d" % (feat, k))
             rp = {"shape": list(shape), "opening": k, "object": obj.astype(int).ravel().tolist(), "scale": a, "offset": b,
                   "mean_volume": vol.ravel().tolist(),
-                  "call": "compute_mask(np.array(mean_volume).reshape(shape), None, cc=True, opening=opening)  (defaults m=0.2, M=0.9)",
+                  "m": m, "M": M,
+                  "call": "compute_mask(np.array(mean_volume).reshape(shape), None, m, M, cc=True, opening=opening)",
                   "thresholded_voxels": int(thresholded.sum()), "components": [len(c) for c in _components(thresholded)]}
             try:
-                got = np.asarray(nm.compute_mask(vol, None, cc=True, opening=k))
-                got_nocc = np.asarray(nm.compute_mask(vol, None, cc=False, opening=k))
+                got = np.asarray(nm.compute_mask(vol, None, m, M, cc=True, opening=k))
+                got_nocc = np.asarray(nm.compute_mask(vol, None, m, M, cc=False, opening=k))
             except Exception as e:  # noqa
                 ck.fail("compute_mask/pipeline/raises/%s" % feat, "compute_mask(cc=True, opening=%d) raised %s: %s" % (k, type(e).__name__, e), rp)
                 continue
